@@ -13,6 +13,8 @@ from ..models import key, all_outs
 from ..probe import Probe
 from . import simprops
 
+from ..e2e import session_pids, kill_session
+
 PROP = "C07"
 
 SPEC = st.one_of(
@@ -193,7 +195,7 @@ def e2e_case(root, g, ops, kind, sig, crash_point, hit, delay_ms):
         sim.close()
 
 
-def session_pids(sid):
+def _session_pids_old(sid):
     out = []
     for d in os.listdir("/proc"):
         if not d.isdigit():
@@ -207,7 +209,7 @@ def session_pids(sid):
     return out
 
 
-def kill_session(sid):
+def _kill_session_old(sid):
     """SIGKILL every process of the session until none is left (children may fork while we look)"""
     for _ in range(50):
         pids = session_pids(sid)
